@@ -61,6 +61,13 @@ def concrete_eval(E: int, M: int, rounding: str, srbits: int, claim: str, w: Dic
         return ok, f"input {dtype}{list(shape)} -> output {q.dtype}{list(q.shape)}"
     if claim == "unmodified":
         return not q._verif_modified, "input tensor was modified in place"
+    if claim == "elementwise":
+        # independent draws need at least one random integer per element: fewer requested than elements means that elements
+        # share a draw (decided on the real code with the real random source's request sizes recorded)
+        n = q.numel()
+        got = sum(q._verif_drawn)
+        ok = (rounding != "stochastic") or got >= n
+        return ok, f"{dtype}{list(shape)}: {n} elements, random integers requested per call {q._verif_drawn}"
     if q.numel() == 0:
         return True, "empty"
     qv = q.flatten()[0].double().item()
@@ -193,9 +200,11 @@ def _task(E: int, M: int, rounding: str, srbits: int, claim: str, timeout_s: flo
         ok = not enc.out.scrambled and all(tuple(d[2]) == tuple(shape) for d in enc.sess.draws)
         if rounding == "stochastic":
             ok = ok and len(enc.sess.draws) == 1 and enc.sess.draws[0][1] == 2 ** srb
-        record(PROVED if ok else INCONCLUSIVE, 0.0,
-               f"ops={sorted(set(enc.sess.ops))} draws={[(d[1], d[2]) for d in enc.sess.draws]} events={enc.sess.events}",
-               kind="structural")
+        if ok:
+            record(PROVED, 0.0, f"ops={sorted(set(enc.sess.ops))} draws={[(d[1], d[2]) for d in enc.sess.draws]} events={enc.sess.events}", kind="structural")
+        else:
+            confirm({"x": 0x3FC00000 if dtype == "float32" else 0x3FF8000000000000 if dtype == "float64" else 0x3FC0 if dtype == "bfloat16" else 0x3E00},
+                    f"draws={[(d[1], d[2]) for d in enc.sess.draws]} events={enc.sess.events}")
         return recs
     if enc.out.scrambled or enc.q32 is None:
         record(INCONCLUSIVE, 0.0, f"pipeline is not element-wise: {enc.sess.events}")
